@@ -94,7 +94,7 @@ namespace fastscapelib
         private:
             void apply_seq(graph_impl_type& graph_impl, data_array_type& elevation)
             {
-                double slope, slope_max;
+                double drop, drop_max;
                 neighbors_type neighbors;
 
                 auto& grid = graph_impl.grid();
@@ -107,7 +107,7 @@ namespace fastscapelib
                 {
                     receivers(i, 0) = i;
                     dist2receivers(i, 0) = 0;
-                    slope_max = std::numeric_limits<double>::min();
+                    drop_max = 0;
 
                     if (graph_impl.is_masked(i) || graph_impl.is_base_level(i))
                     {
@@ -116,13 +116,21 @@ namespace fastscapelib
 
                     for (auto n : grid.neighbors(i, neighbors))
                     {
-                        if (!graph_impl.is_masked(n.idx))
+                        // any strictly lower neighbor is a candidate, however small
+                        // the elevation difference is
+                        if (!graph_impl.is_masked(n.idx)
+                            && elevation.flat(n.idx) < elevation.flat(i))
                         {
-                            slope = (elevation.flat(i) - elevation.flat(n.idx)) / n.distance;
+                            drop = elevation.flat(i) - elevation.flat(n.idx);
 
-                            if (slope > slope_max)
+                            // steeper than the current receiver? compare
+                            // drop / distance ratios without computing the slopes
+                            // (which may underflow, e.g., for the tiny elevation
+                            // increments set by the sink resolvers)
+                            if (receivers(i, 0) == i
+                                || drop / drop_max > n.distance / dist2receivers(i, 0))
                             {
-                                slope_max = slope;
+                                drop_max = drop;
                                 receivers(i, 0) = n.idx;
                                 dist2receivers(i, 0) = n.distance;
                             }
@@ -154,14 +162,14 @@ namespace fastscapelib
                        &grid,
                        &elevation](std::size_t /*runner_id*/, std::size_t start, std::size_t end)
                 {
-                    double slope, slope_max;
+                    double drop, drop_max;
                     neighbors_type neighbors;
 
                     for (auto i = start; i < end; ++i)
                     {
                         receivers(i, 0) = i;
                         dist2receivers(i, 0) = 0;
-                        slope_max = std::numeric_limits<double>::min();
+                        drop_max = 0;
 
                         if (graph_impl.is_masked(i) || graph_impl.is_base_level(i))
                         {
@@ -170,13 +178,16 @@ namespace fastscapelib
 
                         for (auto n : grid.neighbors(i, neighbors))
                         {
-                            if (!graph_impl.is_masked(n.idx))
+                            // same selection as in apply_seq
+                            if (!graph_impl.is_masked(n.idx)
+                                && elevation.flat(n.idx) < elevation.flat(i))
                             {
-                                slope = (elevation.flat(i) - elevation.flat(n.idx)) / n.distance;
+                                drop = elevation.flat(i) - elevation.flat(n.idx);
 
-                                if (slope > slope_max)
+                                if (receivers(i, 0) == i
+                                    || drop / drop_max > n.distance / dist2receivers(i, 0))
                                 {
-                                    slope_max = slope;
+                                    drop_max = drop;
                                     receivers(i, 0) = n.idx;
                                     dist2receivers(i, 0) = n.distance;
                                 }
